@@ -1,0 +1,9 @@
+//go:build verif
+
+package styles
+
+// Assumed contracts of the naming-style objects (comment-only file, read by /verif/engine): selecting the initialism
+// handling changes the style object only; looking a style up changes nothing.
+//@ extern (Naming) UseInitialisms
+//@ func NewNamingStyle(name string) Naming
+//@   trusted
